@@ -132,7 +132,7 @@ class CandidateNumberRanker:
         :param n_seats: Number of candidates to be selected.
         """
         return list(
-            sorted(votes.keys(), operator.attrgetter('number'))
+            sorted(votes.keys(), key=operator.attrgetter('number'))
         )[:n_seats]
 
 
